@@ -1,0 +1,6 @@
+//go:build verif
+
+package protocol
+
+// WriteAt forwards to pageBuffer.WriteAt (the back-patching of placeholders written earlier).
+func (v *VerifPageBuffer) WriteAt(b []byte, off int64) (int, error) { return v.pb.WriteAt(b, off) }
